@@ -194,7 +194,11 @@ IMATH_HOSTDEVICE void
 transform (const Box<Vec3<S>>& box, const Matrix44<T>& m, Box<Vec3<S>>& result)
     IMATH_NOEXCEPT
 {
-    if (box.isEmpty () || box.isInfinite ()) { return; }
+    if (box.isEmpty () || box.isInfinite ())
+    {
+        result = box;
+        return;
+    }
 
     //
     // If the last column of m is (0 0 0 1) then m is an affine
